@@ -5,6 +5,7 @@ import (
 	"crypto/tls"
 	"fmt"
 	"strings"
+	"sync"
 	"time"
 
 	"github.com/cenkalti/backoff/v4"
@@ -13,6 +14,9 @@ import (
 )
 
 type electrumClient struct {
+	// mu guards client, which is replaced on reconnect while rpc calls of
+	// other goroutines (tx observers, wallet, block subscription) use it.
+	mu       sync.RWMutex
 	client   *electrum.Client
 	endpoint string
 	isTLS    bool
@@ -31,16 +35,29 @@ func NewElectrumClient(ctx context.Context, endpoint string, isTLS bool) (RPC, e
 	return client, nil
 }
 
+// current returns the connection in use.
+func (c *electrumClient) current() *electrum.Client {
+	c.mu.RLock()
+	defer c.mu.RUnlock()
+	return c.client
+}
+
+func (c *electrumClient) setClient(client *electrum.Client) {
+	c.mu.Lock()
+	c.client = client
+	c.mu.Unlock()
+}
+
 // reconnect reconnects to the electrum server if the connection is lost.
 func (c *electrumClient) reconnect(ctx context.Context) error {
-	if err := c.client.Ping(ctx); err != nil {
+	if err := c.current().Ping(ctx); err != nil {
 		log.Infof("failed to ping electrum server: %v", err)
 		log.Infof("reconnecting to electrum server")
 		client, err := newClient(ctx, c.endpoint, c.isTLS)
 		if err != nil {
 			return err
 		}
-		c.client = client
+		c.setClient(client)
 	}
 	return nil
 }
@@ -55,24 +72,24 @@ func newClient(ctx context.Context, endpoint string, isTLS bool) (*electrum.Clie
 }
 
 func (c *electrumClient) Reboot(ctx context.Context) error {
-	c.client.Shutdown()
+	c.current().Shutdown()
 	client, err := newClient(ctx, c.endpoint, c.isTLS)
 	if err != nil {
 		return err
 	}
-	c.client = client
+	c.setClient(client)
 	return nil
 }
 
 func (c *electrumClient) SubscribeHeaders(ctx context.Context) (<-chan *electrum.SubscribeHeadersResult, error) {
-	return c.client.SubscribeHeaders(ctx)
+	return c.current().SubscribeHeaders(ctx)
 }
 
 func (c *electrumClient) GetHistory(ctx context.Context, scripthash string) ([]*electrum.GetMempoolResult, error) {
 	if err := c.reconnect(ctx); err != nil {
 		return nil, err
 	}
-	return c.client.GetHistory(ctx, scripthash)
+	return c.current().GetHistory(ctx, scripthash)
 }
 
 // GetRawTransaction retrieves the raw transaction data for a given transaction
@@ -89,7 +106,7 @@ func (c *electrumClient) GetRawTransaction(ctx context.Context, txHash string) (
 			return err
 		}
 		var innerErr error
-		rawTx, innerErr = c.client.GetRawTransaction(ctx, txHash)
+		rawTx, innerErr = c.current().GetRawTransaction(ctx, txHash)
 		return innerErr
 	})
 
@@ -121,14 +138,14 @@ func (c *electrumClient) BroadcastTransaction(ctx context.Context, rawTx string)
 	if err := c.reconnect(ctx); err != nil {
 		return "", err
 	}
-	return c.client.BroadcastTransaction(ctx, rawTx)
+	return c.current().BroadcastTransaction(ctx, rawTx)
 }
 
 func (c *electrumClient) GetFee(ctx context.Context, target uint32) (float32, error) {
 	if err := c.reconnect(ctx); err != nil {
 		return 0, err
 	}
-	return c.client.GetFee(ctx, target)
+	return c.current().GetFee(ctx, target)
 }
 
 func (c *electrumClient) Ping(ctx context.Context) error {
